@@ -18,6 +18,124 @@ pub struct Case {
     pub contents: Vec<ContentSpec>,
     pub extra: Vec<ExtraPack>,
     pub dir: DirSpec,
+    /// Some(order): the alternative-packs case instead (two packs declared with the SAME id, the
+    /// one declared first has priority - spec/manifest.rst); `order` permutes the declarations
+    #[serde(default)]
+    pub alt_packs: Option<u8>,
+}
+
+/// Two content packs share id 2 ("hi" declared before "lo"), packs 1 and 3 are ordinary; every
+/// pack in its own file. While "hi" is there its bytes are served; without it the contents of
+/// pack 2 are MISSING (or, read generously, served from the alternative) - never an error, never
+/// the bytes of "lo" while "hi" is available; packs 1 and 3 always read.
+fn run_alt(case: &Case, order: u8, ctx: &Ctx, info: &mut CaseInfo) -> Result<(), Failure> {
+    let io = |e: std::io::Error| Failure::new("create-error", format!("alternative packs: {e}"));
+    let jb = |e: jbk::creator::Error| Failure::new("create-error", format!("alternative packs: {e}"));
+    let base = ctx.subdir("c11-alt");
+    let mut packs: Vec<(&str, u16, Vec<Vec<u8>>)> = vec![
+        ("main.jbkc", 1, (0..2).map(|i| content_bytes(100 + i, 20 + 13 * i as usize, Entropy::Text)).collect()),
+        ("other.jbkc", 3, (0..1).map(|i| content_bytes(300 + i, 41, Entropy::High)).collect()),
+        ("hi.jbkc", 2, (0..3).map(|i| content_bytes(200 + i, 10 + 7 * i as usize, Entropy::Text)).collect()),
+        ("lo.jbkc", 2, (0..3).map(|i| content_bytes(900 + i, 10 + 7 * i as usize, Entropy::Low)).collect()),
+    ];
+    // declaration order: hi always before lo, the others anywhere
+    match order % 4 {
+        0 => {}
+        1 => packs.swap(0, 2),          // hi, other, main, lo
+        2 => packs.rotate_left(2),      // hi, lo, main, other
+        _ => packs.swap(1, 2),          // main, hi, other, lo
+    }
+    let mut datas = vec![];
+    let mut addresses: Vec<(u16, u32)> = vec![];
+    for (file, id, contents) in &packs {
+        let p = jbk::Utf8PathBuf::from_path_buf(base.join(file)).unwrap();
+        let mut c = jbk::creator::ContentPackCreator::new(&p, jbk::PackId::from(*id), vendor(), Default::default(), case.comp.to_jbk()).map_err(io)?;
+        for (k, b) in contents.iter().enumerate() {
+            c.add_content(Box::new(std::io::Cursor::new(b.clone())), Default::default()).map_err(io)?;
+            if *file != "lo.jbkc" {
+                addresses.push((*id, k as u32));
+            }
+        }
+        let (_, data) = c.finalize().map_err(io)?;
+        datas.push((file.to_string(), data));
+    }
+    let dmodel = build_model(&DirSpec::addresses_only(), &addresses);
+    let main = jbk::Utf8PathBuf::from_path_buf(base.join("a.jbk")).unwrap();
+    let mut container = jbk::creator::ContainerPackCreator::new(&main, Default::default()).map_err(io)?;
+    let mut dp = jbk::creator::DirectoryPackCreator::new(jbk::PackId::from(0), vendor(), Default::default());
+    build_dir(&dmodel).install(&mut dp);
+    let fin = dp.finalize().map_err(io)?;
+    let mut file = container.into_file().map_err(io)?;
+    let dir_data = fin.write(&mut file).map_err(jb)?;
+    container = file.close(dir_data.uuid).map_err(io)?;
+    let mut manifest = jbk::creator::ManifestPackCreator::new(vendor(), Default::default());
+    manifest.add_pack(dir_data, "");
+    let hi_uuid = datas.iter().find(|d| d.0 == "hi.jbkc").unwrap().1.uuid;
+    for (file, d) in datas {
+        manifest.add_pack(d, file.as_str());
+    }
+    let mut file = container.into_file().map_err(io)?;
+    let muuid = manifest.finalize(&mut file).map_err(jb)?;
+    container = file.close(muuid).map_err(io)?;
+    container.finalize().map_err(io)?;
+    let bytes_of = |file: &str, k: usize| packs.iter().find(|p| p.0 == file).unwrap().2[k].clone();
+    let mut evals = 0u64;
+    for removed in 0u8..16 {
+        let gone = |file: &str| {
+            let i = ["main.jbkc", "other.jbkc", "hi.jbkc", "lo.jbkc"].iter().position(|f| *f == file).unwrap();
+            removed >> i & 1 == 1
+        };
+        let sdir = ctx.subdir("c11-alt-scenario");
+        copy_dir(&base, &sdir);
+        for f in ["main.jbkc", "other.jbkc", "hi.jbkc", "lo.jbkc"] {
+            if gone(f) {
+                std::fs::remove_file(sdir.join(f)).unwrap();
+            }
+        }
+        let c = match jbk::reader::Container::new(sdir.join("a.jbk")) {
+            Ok(c) => c,
+            Err(e) => fail!("open-with-missing-pack", "alternative packs, removed mask {removed:04b}: Container::new: {e}"),
+        };
+        for (file, id, n) in [("main.jbkc", 1u16, 2usize), ("other.jbkc", 3, 1)] {
+            for k in 0..n {
+                let got = read_content(&c, jbk::ContentAddress::new(id.into(), (k as u32).into()));
+                match (&got, gone(file)) {
+                    (ContentRead::Bytes(v), false) if *v == bytes_of(file, k) => {}
+                    (ContentRead::Missing { pack_id, .. }, true) if *pack_id == id => {}
+                    _ => fail!(if gone(file) { "missing-not-reported" } else { "available-content-wrong" }, "alternative packs, removed mask {removed:04b}: content ({id},{k}) of {file}: {}", got.describe()),
+                }
+                evals += 1;
+            }
+        }
+        for k in 0..3 {
+            let got = read_content(&c, jbk::ContentAddress::new(2u16.into(), (k as u32).into()));
+            match &got {
+                ContentRead::Bytes(v) if !gone("hi.jbkc") => ensure!(
+                    *v == bytes_of("hi.jbkc", k),
+                    "alternative-pack-priority",
+                    "removed mask {removed:04b}: content (2,{k}) is served from {} although the pack declared first for id 2 (hi.jbkc) is available",
+                    if *v == bytes_of("lo.jbkc", k) { "the alternative declared second (lo.jbkc)" } else { "nowhere known" }
+                ),
+                // without the first-declared pack: MISSING, describing that pack ...
+                ContentRead::Missing { pack_id: 2, uuid, .. } if gone("hi.jbkc") => ensure!(uuid == hi_uuid.as_bytes() || gone("lo.jbkc"), "missing-describes-other-pack", "removed mask {removed:04b}: content (2,{k}): MISSING describes another pack than the one declared first"),
+                // ... or, read generously, the bytes of the alternative that is still there
+                ContentRead::Bytes(v) if gone("hi.jbkc") && !gone("lo.jbkc") && *v == bytes_of("lo.jbkc", k) => {}
+                _ => fail!("alternative-pack-read", "alternative packs, removed mask {removed:04b}: content (2,{k}): {}", got.describe()),
+            }
+            evals += 1;
+        }
+        match c.check() {
+            Ok(true) => {}
+            other => fail!("check-with-missing-pack", "alternative packs, removed mask {removed:04b}: check() = {:?}", other.map_err(|e| e.to_string())),
+        }
+        let _ = std::fs::remove_dir_all(&sdir);
+    }
+    info.class("alternative-packs-same-id");
+    info.class(format!("comp:{}", case.comp.name()));
+    info.evals = evals;
+    info.nontrivial = true;
+    info.key = hash_str(&format!("alt|{order}|{:?}", case.comp));
+    Ok(())
 }
 
 #[derive(Clone, Copy, Debug, PartialEq, Eq)]
@@ -72,21 +190,31 @@ impl Property for C11 {
                     // at least one separate pack
                     extra.push(ExtraPack { comp: Comp::None, contents: contents.iter().take(2).cloned().collect(), id_class: 0, place: 0 });
                 }
-                Case { packaging, comp, contents, extra, dir }
+                Case { packaging, comp, contents, extra, dir, alt_packs: None }
             })
             .boxed()
     }
 
     fn required_classes(_tier: Tier) -> Vec<&'static str> {
-        vec!["damaged-present-pack-detected", "separate-packs:1", "separate-packs:2", "separate-packs:3", "kind:Deleted", "kind:Directory", "kind:ForeignContainer", "kind:ForeignBarePack", "kind:PointsToOtherPack", "some-available-some-not", "all-unavailable", "main-pack-unavailable"]
+        vec!["alternative-packs-same-id", "damaged-present-pack-detected", "separate-packs:1", "separate-packs:2", "separate-packs:3", "kind:Deleted", "kind:Directory", "kind:ForeignContainer", "kind:ForeignBarePack", "kind:PointsToOtherPack", "some-available-some-not", "all-unavailable", "main-pack-unavailable"]
     }
 
     fn case_timeout_s(_tier: Tier) -> u64 {
         900
     }
 
+    fn fixed_cases(_tier: Tier) -> Vec<Case> {
+        (0u8..4)
+            .map(|o| Case { packaging: Packaging::NoConcat, comp: [Comp::None, Comp::Zstd(3), Comp::Lz4(3), Comp::None][o as usize], contents: vec![], extra: vec![], dir: DirSpec::addresses_only(), alt_packs: Some(o) })
+            .collect()
+    }
+
     fn run(case: &Case, ctx: &Ctx) -> CaseResult {
         let mut info = CaseInfo::new();
+        if let Some(order) = case.alt_packs {
+            run_alt(case, order, ctx, &mut info)?;
+            return Ok(info);
+        }
         let spec = ContainerSpec {
             packaging: case.packaging,
             comp: case.comp,
